@@ -32,6 +32,10 @@ func main() {
 	switch os.Args[1] {
 	case "run":
 		cmdRun(os.Args[2:])
+	case "child":
+		cmdChild(os.Args[2:])
+	case "crash":
+		cmdCrash(os.Args[2:])
 	default:
 		die(70, "unknown command %s", os.Args[1])
 	}
